@@ -1487,6 +1487,10 @@ class Tensor(object):
             if not isinstance(key[i], slice) and not hasattr(key[i], "__len__"):
                 if key[i] < 0:
                     key[i] += self.shape[i]
+                if key[i] < 0 or key[i] >= self.shape[i]:
+                    raise IndexError(
+                        "Index {} is out of bounds for dimension {}".format(key[i], i)
+                    )
                 key[i] = slice(key[i], key[i] + 1)
 
             subtract_core = torch.zeros_like(self.cores[i])
